@@ -577,10 +577,10 @@ def plan(tr, rng_st):
     exe, cmd = hx(tr.exename), hx(tr.cmdline)
     return [
         ("chrome", "d", True, "dump", ["--chrome"] + (["-t", "1s"] if tr.filtered else []), None, None),
-        ("flame0", "n", False, "dump", ["--flame-graph"], "flame 0 " + tail, 0),
+        ("flame0", "n", False, "dump", ["--flame-graph"], "flame {F} 0 " + tail, 0),
         ("flameS", "d", True, "dump", ["--flame-graph", "--sample-time", "%dns" % rng_st],
-         "flame %d %s" % (rng_st, tail), rng_st),
-        ("flameA", "d", True, "dump", ["--flame-graph"], "flame auto:%d %s" % (total, tail), st),
+         "flame {F} %d %s" % (rng_st, tail), rng_st),
+        ("flameA", "d", True, "dump", ["--flame-graph"], "flame {F} auto:%d %s" % (total, tail), st),
         ("graphviz", "d", True, "dump", ["--graphviz"], None, None),
         ("mermaid", "d", True, "dump", ["--mermaid"], "mermaid %s %s" % (exe, tail), None),
         ("graph", "d", True, "graph", ["-f", "total,self"], "graph %s %s" % (exe, tail), None),
@@ -865,6 +865,10 @@ def run_cases(ctx, only):
             elif mode == "graphviz":
                 mlines.append("graphviz %s %s %s %s" % (hx(tr.exename), hx(version), hx(tr.cmdline), tail))
                 mkeys.append((i, mode, 1))
+            elif mode.startswith("flame"):
+                for fixed in (1, 0):
+                    mlines.append(ml.replace("{F}", str(fixed)))
+                    mkeys.append((i, mode, fixed))
             else:
                 mlines.append(ml)
                 mkeys.append((i, mode, 1))
@@ -954,8 +958,24 @@ def run_cases(ctx, only):
                 bad = "%s failed: rc=%d %s" % (mode, rc, errtxt[:200])
             calls, _ = reference(tr)
             distinct.add((mode, len(ref_paths(calls)), len(tr.tasks), extra, any(c["t1"] is None for c in calls)))
-            stats["graph_family_match"] += same and not bad
-            if same and not bad:
+            same0 = False
+            if mode.startswith("flame"):
+                m0 = mres[(i, mode, 0)]
+                exp0 = bytes.fromhex(m0) if m0 not in ("-", "bad-op") else b""
+                same0 = out == exp0 and rc == 0 and not san
+                stats["flame_match_prefix_model"] += same0
+                stats["flame_match_fixed_model"] += same
+            stats["graph_family_match"] += (same or same0) and not bad
+            if (same or same0) and not bad:
+                continue
+            if bad and same0 and exp0 != exp:
+                stats["defect_F9c"] += 1
+                rep.update({"what": bad, "impl_output": out[:3000].decode("latin-1"), "model_fixed": exp[:3000].decode("latin-1"),
+                            "model_prefix": exp0[:3000].decode("latin-1"), "matches_prefix_model": True,
+                            "kind": "property-violated-on-implementation", "finding": "F9c",
+                            "theorem": "c15_flame_lines; c15_prefix_flame_digits_witness"})
+                if stats["defect_F9c"] <= 2 or "F9c" in known:
+                    report("F9c-t%d-%s" % (i, mode), rep, finding="F9c")
                 continue
             rep.update({"what": bad, "impl_output": out[:3000].decode("latin-1"),
                         "model_output": (exp[:3000].decode("latin-1") if isinstance(exp, bytes) else exp[:3000])})
@@ -985,6 +1005,8 @@ def run_cases(ctx, only):
         "chrome_runs_matching_fixed_model": stats["chrome_match_fixed_model"],
         "chrome_runs_matching_prefix_model": stats["chrome_match_prefix_model"],
         "graph_family_runs_matching_model": stats["graph_family_match"],
+        "flame_runs_matching_fixed_model": stats["flame_match_fixed_model"],
+        "flame_runs_matching_prefix_model": stats["flame_match_prefix_model"],
         "defects_seen": {k[7:]: v for k, v in stats.items() if k.startswith("defect_")},
         "violations_total": nviol[0],
         "exhaustive": False,
